@@ -58,6 +58,10 @@ pub struct Case {
     /// then the request under test again
     #[serde(default)]
     pub host_hangup: bool,
+    /// a NON-elevated caller's record whose elevation field holds this value instead of 0 (only 1 means elevated; a failed
+    /// check leaves a negative number): the claims header still says not elevated
+    #[serde(default)]
+    pub admin_raw: Option<i32>,
 }
 
 /// move the process's wall clock forward (harness/csrc/clockshift.c, preloaded into the C05 workers); false = shim absent
@@ -126,9 +130,9 @@ pub fn strategy(spoof_range: std::ops::Range<usize>, key_prob: f64) -> impl Stra
         exempt_or(Just(gen::GUrl { path: String::new(), query: None })),
         prop::collection::vec(spoof(), spoof_range),
         prop::collection::vec(any::<u16>(), 8),
-        (crate::props::c04::query(), prop::option::weighted(0.2, (crate::props::c04::guid(), crate::props::c04::key_hex())), prop_oneof![8 => Just(0u8), 1 => Just(1u8), 1 => Just(2u8)], prop::option::weighted(0.2, prop::sample::select(vec![1u32, 59, 60, 61, 120, 300, 3600, 3660, 86400, 7 * 86400, 31 * 86400])), prop::bool::weighted(0.25), prop_oneof![5 => Just(0u8), 1 => 1u8..32], prop::option::weighted(0.04, prop::sample::select(vec![300u16, 1100, 1600, 2300])), prop::bool::weighted(0.12)),
+        (crate::props::c04::query(), prop::option::weighted(0.2, (crate::props::c04::guid(), crate::props::c04::key_hex())), prop_oneof![8 => Just(0u8), 1 => Just(1u8), 1 => Just(2u8)], prop::option::weighted(0.2, prop::sample::select(vec![1u32, 59, 60, 61, 120, 300, 3600, 3660, 86400, 7 * 86400, 31 * 86400])), prop::bool::weighted(0.25), prop_oneof![5 => Just(0u8), 1 => 1u8..32], prop::option::weighted(0.04, prop::sample::select(vec![300u16, 1100, 1600, 2300])), prop::bool::weighted(0.12), prop::option::weighted(0.15, prop::sample::select(vec![-1i32, -22, i32::MIN, 2, 256, i32::MAX]))),
     )
-        .prop_map(|((dest, uid_sel, root), helper_sel, key, mut req, (exempt_method, exempt_url), spoofs, positions, (rich_query, rotate_to, no_host, clock_jump_s, trailer_spoof, conn_nominate, slow_body_ms, host_hangup))| {
+        .prop_map(|((dest, uid_sel, root), helper_sel, key, mut req, (exempt_method, exempt_url), spoofs, positions, (rich_query, rotate_to, no_host, clock_jump_s, trailer_spoof, conn_nominate, slow_body_ms, host_hangup, admin_raw))| {
             if let Some(m) = exempt_method {
                 req.method = m.to_string();
                 req.url = exempt_url;
@@ -142,11 +146,11 @@ pub fn strategy(spoof_range: std::ops::Range<usize>, key_prob: f64) -> impl Stra
                     req.url.query = rich_query;
                 }
             }
-            Case { rec: Rec { uid_sel, helper_sel, is_root: root.unwrap_or(uid_sel == 0), dest }, key, req, spoofs, positions, rotate_to, no_host, clock_jump_s, trailer_spoof, conn_nominate, slow_body_ms, host_hangup }
+            Case { rec: Rec { uid_sel, helper_sel, is_root: root.unwrap_or(uid_sel == 0), dest }, key, req, spoofs, positions, rotate_to, no_host, clock_jump_s, trailer_spoof, conn_nominate, slow_body_ms, host_hangup, admin_raw }
         })
 }
 
-pub const RULE_C05: &str = "generator: in 12% of the cases the request is sent again on a keep-alive connection right after the host has closed its side following an earlier response (nothing relayed, or relayed with exactly the proxy's headers); one case in six also carries a client Connection header that nominates proxy-owned names as hop-by-hop fields (one list, any letter case, with or without keep-alive); a quarter of the POST/PUT/PATCH requests are sent chunked with a Trailer announcement and a trailer section carrying client-chosen claims and date fields (they must not reach the host in any part of the message); in 20% of the cases the wall clock of the worker process is moved forward (1 s .. 31 days; 59/60/61 s, hours and days included) between a first request and the request under test, through a preloaded clock_gettime shim that shifts CLOCK_REALTIME for harness and agent alike, and once more between two requests on one keep-alive connection; attributed, authorised requests (IMDS from root and non-root callers with the elevation flag following the uid or set independently; WireServer/HostGAPlugin from elevated callers; another destination) with no rule sets, a key latched in 70% of the cases, carrying 0-3 client-supplied copies of x-ms-azure-host-claims / -date / -authorization in random letter case, at random positions among the other headers, with values {the opposite or same elevation claim in two spellings, an old and a future RFC 1123 date, a well-formed authorization value with a random MAC, junk}. oracle on the raw bytes captured at the mock host: exactly one claims line whose value states the record's elevation; exactly one date line, RFC 1123, within 5 s of the harness clock; if a key is latched and the request is not signature-exempt exactly one authorization line, none of the client's values, and its MAC verifies (C04). non-trivial: at least one spoofed copy or a nominating Connection header; distinct by hash of the case.";
+pub const RULE_C05: &str = "generator: 15% of the non-elevated records carry an elevation field other than 0 (-1, -22, i32::MIN, 2, 256, i32::MAX: only 1 means elevated); in 12% of the cases the request is sent again on a keep-alive connection right after the host has closed its side following an earlier response (nothing relayed, or relayed with exactly the proxy's headers); one case in six also carries a client Connection header that nominates proxy-owned names as hop-by-hop fields (one list, any letter case, with or without keep-alive); a quarter of the POST/PUT/PATCH requests are sent chunked with a Trailer announcement and a trailer section carrying client-chosen claims and date fields (they must not reach the host in any part of the message); in 20% of the cases the wall clock of the worker process is moved forward (1 s .. 31 days; 59/60/61 s, hours and days included) between a first request and the request under test, through a preloaded clock_gettime shim that shifts CLOCK_REALTIME for harness and agent alike, and once more between two requests on one keep-alive connection; attributed, authorised requests (IMDS from root and non-root callers with the elevation flag following the uid or set independently; WireServer/HostGAPlugin from elevated callers; another destination) with no rule sets, a key latched in 70% of the cases, carrying 0-3 client-supplied copies of x-ms-azure-host-claims / -date / -authorization in random letter case, at random positions among the other headers, with values {the opposite or same elevation claim in two spellings, an old and a future RFC 1123 date, a well-formed authorization value with a random MAC, junk}. oracle on the raw bytes captured at the mock host: exactly one claims line whose value states the record's elevation; exactly one date line, RFC 1123, within 5 s of the harness clock; if a key is latched and the request is not signature-exempt exactly one authorization line, none of the client's values, and its MAC verifies (C04). non-trivial: at least one spoofed copy or a nominating Connection header; distinct by hash of the case.";
 pub const RULE_C04: &str = "end-to-end half (4% of the cases: the second half of the request body arrives 0.3-2.3 s after the first): the same rig with a key always latched and no spoofed headers; query strings from C04's colliding pools, header sets, bodies as Content-Length or chunked. oracle: the mock's raw bytes are parsed by the independent HTTP reader; exactly one authorization line 'Azure-HMAC-SHA256 <guid> <64 hex>'; HMAC_ref(key, canon_ref(received method, de-framed body, received header lines, received target)) equals it for one of the two admissible parameter orders (a transport-generated 'content-length: 0' on a body-less request may be in or out: counted as underspecified). 10% of the requests carry no Host header and 10% are HTTP/1.0 without one (hyper's server accepts both). In 20% of the cases the request is then sent twice on one keep-alive connection with the latched key replaced in between: the second one must announce and verify under the new key. Exempt uploads (PUT /vmAgentLog, POST /machine/?comp=telemetrydata, any letter case) must carry no proxy signature. non-trivial: >= 2 parameters or an escaped/valueless one, or >= 2 client headers, or a body with a line feed; distinct by hash of the case.";
 
 fn days_from_civil(y: i64, m: i64, d: i64) -> i64 {
@@ -371,7 +375,13 @@ pub fn eval(rig: &Rig, case: &Case, stats: &mut Stats, c04_focus: bool) -> Outco
         }
         _ => None,
     };
-    let obs = match crate::props::c01::exchange_paced(rig, Some(&case.rec), &wire, &req.method, pause) {
+    let mut entry = rig.entry_of(&case.rec);
+    // WireServer / HostGAPlugin need an elevated caller: the odd elevation values go with the other destinations
+    if let (Some(v), false, false) = (case.admin_raw, case.rec.is_root, matches!(case.rec.dest, DestSel::WireServer | DestSel::GaPlugin)) {
+        entry.is_admin = v;
+        stats.class("record:elevation-field-neither-0-nor-1");
+    }
+    let obs = match crate::props::c01::exchange_with_entry(rig, Some(entry), &wire, &req.method, pause) {
         Ok(o) => o,
         Err(e) => return Outcome::fail("rig:cannot-open-connection", e),
     };
